@@ -1,5 +1,6 @@
 """Sidecar contracts for btc_hd_wallet/base_wallet.py and bip39.bip39_seed_from_mnemonic
 (C03 constructors, C05 addresses, C14 watch-only, C16 network, C17 by_path)."""
+from . import summaries as _SUM_ALWAYS      # noqa: F401,E402  (summaries installed independent of import order)
 import z3
 from pyvc import prims as U
 from pyvc import logic as L
@@ -385,3 +386,87 @@ class NodeExtendedPrivateKey:
 
     def post(self, c, I, out):
         yield "raises.watch_only", out.raised
+
+
+# ------------------------------------------------------------------------------------------ C08 / C03: fresh wallets
+from . import c_bip39 as CB39      # noqa: E402
+
+
+class _NewWallet:
+    """C08/C03: a new wallet of N words draws ENT = 32N/3 bits exactly once from the OS source over the full
+    range, its mnemonic encodes exactly the drawn integer, and it continues like from_mnemonic"""
+    props = ("C08", "C03")
+    words = 24
+    via = "new_wallet"
+    opts = dict(no_summary={"btc_hd_wallet.bip39.mnemonic_from_entropy"})      # inlined: the words must be visible
+
+    @property
+    def target(self):
+        return f"btc_hd_wallet.base_wallet.BaseWallet.{self.via}"
+
+    def run_real(self, f, rargs, rkw, I):
+        import os
+        import random
+        calls = []
+        real = os.urandom
+
+        def spy(n):
+            calls.append(n)
+            return real(n)
+        os.urandom = spy
+        random._urandom = spy
+        try:
+            return f(*rargs, **rkw)
+        finally:
+            os.urandom = real
+            random._urandom = real
+            I.urandom_calls = calls
+
+    def inputs(self, B):
+        cls = wallet_cls(B)
+        p = sym_text(B, "password")
+        t = B.bool("testnet")
+        bits = {12: 128, 15: 160, 18: 192, 21: 224, 24: 256}.get(self.words)
+        if self.via == "new_wallet":
+            kw = dict(mnemonic_length=self.words, password=p, testnet=t)
+        else:
+            kw = dict(entropy_bits=bits if bits else self.words, password=p, testnet=t)
+        return [cls], kw, NS(cls=cls, p=p, t=t, bits=bits)
+
+    def post(self, c, I, out):
+        if I.bits is None:
+            yield "raises.unknown_size", out.raised
+            yield "ensures.nothing_drawn", not [e for e in c.effects if e[0] == "draw"]
+            return
+        bits = I.bits
+        if out.returned and isinstance(c.deref(out.value).fields.get("mnemonic"), str):
+            from spec import bip39 as SB
+            m = c.deref(out.value).fields.get("mnemonic")
+            calls = getattr(I, "urandom_calls", [])
+            yield "ensures.os_source_asked_for_ENT_bits", len(calls) >= 1 and sum(8 * n for n in calls) >= bits
+            yield "ensures.mnemonic_has_ENT_bits", len(SB.entropy_from_mnemonic(m)) * 8 == bits
+            return
+        draws = [e[1] for e in c.effects if e[0] == "draw"]
+        yield "ensures.exactly_one_draw", len(draws) == 1
+        if len(draws) != 1:
+            return
+        source, cls, lo, hi, r = draws[0]
+        yield "ensures.source_is_SystemRandom", source == "os.urandom" and cls == "SystemRandom"
+        yield "ensures.full_range_0_to_2_ENT", lo == 0 and hi == 2 ** bits
+        m, idxs = CB39.spec_sentence(Rope([(r, bits // 8, False)]))
+        seed = spec_seed(m, I.p)
+        yield "raises.iff_invalid_master", iff(out.raised, seed_invalid(seed))
+        if out.returned:
+            yield from master_clauses(c, out.value, seed, I.t, I.cls)
+            w = c.deref(out.value)
+            got = w.fields.get("mnemonic")
+            words = [p for p in got.parts if isinstance(p, OStr)] if isinstance(got, SStr) else []
+            yield "ensures.mnemonic_word_count", len(words) == bits * 3 // 32
+            for j, (wj, ij) in enumerate(zip(words, idxs)):
+                yield f"ensures.mnemonic_word[{j}]_encodes_the_drawn_integer", eq(wj.inj[2], ij) if wj.inj else False
+            yield "ensures.password_echoed", eq(w.fields.get("password"), I.p)
+
+
+for _via in ("new_wallet", "from_entropy_bits"):
+    for _w in (12, 15, 18, 21, 24, 0, 13, 25):
+        CONTRACTS.append(type(f"Fresh_{_via}_{_w}", (_NewWallet,), dict(words=_w, via=_via))())
